@@ -53,3 +53,46 @@ theorem wl_maxprob_recipe_sep_formula
   rfl
 
 end Spg.C06e
+
+namespace Spg.C06e
+open Spg Rand C06 C06d
+
+section Const
+variable (cfg : Cfg) (title : Word → Word) (r : WLRecipe) (wl : WordList)
+  (hl : r.list = some wl) (hne : wl.words ≠ []) (hL : 1 ≤ r.length) {c : Word} (h : ConstSep r c)
+  (hok : ListOK title wl.words)
+include hl hne hL h hok
+
+/-- The same for a constant separator (`SeparatorChar`, `SFNone`, constant functions): the
+separator term of the formula is 0 and no password is likelier than
+`2^-(L·log2 size + capBits)`. -/
+theorem wl_maxprob_const_formula
+    (hvis : WLRecipe.capFactor r r.length.toNat ≠ 1 →
+      (∀ w ∈ wl.words, title w ≠ w) ∧ (∀ w₁ ∈ wl.words, ∀ w₂ ∈ wl.words, title w₁ ≠ w₂))
+    (τ : List (Token Nat)) :
+    ((E (WLRecipe.generate cfg title r) (retTokens τ) : ℚ) : ℝ) ≤
+      (2 : ℝ) ^ (-((r.length.toNat : ℝ) * Real.logb 2 ((wl.words.length : Nat) : ℝ)
+          + C08c.capBits r r.length.toNat)) := by
+  have hL' : 1 ≤ r.length.toNat := by omega
+  have hsize : 0 < wl.words.length := List.length_pos_of_ne_nil hne
+  have hcf := C08c.capFactor_pos r r.length.toNat hL'
+  have hDpos : (0 : ℚ) < (((((wl.words.length : Nat) : Int) ^ r.length.toNat *
+              WLRecipe.capFactor r r.length.toNat : Int)) : ℚ) := by
+    have : (0 : Int) < ((wl.words.length : Nat) : Int) ^ r.length.toNat *
+              WLRecipe.capFactor r r.length.toNat := by
+      have h1 : (0 : Int) < ((wl.words.length : Nat) : Int) := by exact_mod_cast hsize
+      positivity
+    exact_mod_cast this
+  have hb := wl_maxprob_bits cfg title r wl hl hne hL h hok hvis hDpos τ
+  have hf := C08c.log_count_eq_sum wl.words.length r.length.toNat
+    (WLRecipe.capFactor r r.length.toNat) 1 hsize hcf (by norm_num)
+  rw [C08c.capBits_spec] at hf
+  simp only [Int.cast_one, Real.logb_one, mul_zero, add_zero, one_pow, mul_one] at hf
+  unfold bits at hb
+  rw [← hf]
+  convert hb using 3
+  push_cast
+  rfl
+
+end Const
+end Spg.C06e
